@@ -42,12 +42,9 @@ Section C16.
 
   (* a role that is not present, or a signature the keyring does not verify, makes verification fail *)
   Theorem C16_missing_role : forall kr role d, lookup (s "_gpg" ++ role) (d_members ctl d) = None -> check kr role d = None.
-  Proof. intros kr role d H. unfold check_debsig. now rewrite H. Qed.
+  Proof. exact (C16_no_role keyring entity ctl pgp_verify pickS). Qed.
   Theorem C16_unverified : forall kr role d, (forall x sg, pgp_verify kr x sg = None) -> check kr role d = None.
-  Proof.
-    intros kr role d H. unfold check_debsig. destruct (lookup _ _); [|reflexivity]. destruct (lookup _ _); [|reflexivity].
-    destruct (pickS _) as [[? ?]|]; [|reflexivity]. destruct (pickS _) as [[? ?]|]; [|reflexivity]. apply H.
-  Qed.
+  Proof. exact (C16_not_verified keyring entity ctl pgp_verify pickS). Qed.
 End C16.
 Print Assumptions C16_verified_content_is_loaded_content.
 Print Assumptions C16_decoy_members_rejected.
